@@ -99,8 +99,8 @@ def build_spec(rng, backend, noline_opt, no_reject=False, risky=False):
     emit("#include <stdio.h>")
     emit("#include <string.h>")
     emit("#define MAXR 200")
-    emit("extern const char *g_v[MAXR]; extern int g_l[MAXR];")
-    emit("#define REC(k, s) do { g_v[k] = s; g_l[k] = __LINE__; } while (0)")
+    emit("extern const char *g_v[MAXR]; extern int g_l[MAXR]; extern const char *g_f[MAXR];")
+    emit("#define REC(k, s) do { g_v[k] = s; g_l[k] = __LINE__; g_f[k] = __FILE__; } while (0)")
     emit("static void top_regions(void);")
     emit("}")
     for _ in range(rng.rng(0, 2)):
@@ -225,7 +225,7 @@ def build_spec(rng, backend, noline_opt, no_reject=False, risky=False):
     emit("    yyterminate();")
     emit("\t}")
     emit("%%")
-    emit("const char *g_v[MAXR]; int g_l[MAXR];")
+    emit("const char *g_v[MAXR]; int g_l[MAXR]; const char *g_f[MAXR];")
     for _ in range(rng.rng(0, 3)):
         emit("")
     emit("static void sect3_fn(void) {")
@@ -240,7 +240,7 @@ def build_spec(rng, backend, noline_opt, no_reject=False, risky=False):
     else:
         emit("    yyscan_t s; yylex_init(&s); yy_scan_string(\"%s\", s); yylex(s); yylex_destroy(s);" % letters)
     emit("    top_block(); sect1_block(); sect3_fn();")
-    emit("    for (i = 0; i < MAXR; i++) if (g_v[i]) { printf(\"%d %d \", i, g_l[i]); for (j = 0; g_v[i][j]; j++) printf(\"%02x\", (unsigned char) g_v[i][j]); printf(\"\\n\"); }")
+    emit("    for (i = 0; i < MAXR; i++) if (g_v[i]) { printf(\"%d %d \", i, g_l[i]); for (j = 0; g_v[i][j]; j++) printf(\"%02x\", (unsigned char) g_v[i][j]); printf(\" f\"); for (j = 0; g_f[i][j]; j++) printf(\"%02x\", (unsigned char) g_f[i][j]); printf(\"\\n\"); }")
     emit("    return 0;")
     emit("}")
     return "\n".join(lines) + "\n", exp
@@ -274,10 +274,14 @@ def one(job):
     os.makedirs(wd, exist_ok=True)
     risky = idx % 12 == 5
     text, exp = build_spec(rng, backend, noline_opt, no_reject=any(o in ('-Cf', '-CF') for o in flex_opts), risky=risky)
-    with open(os.path.join(wd, "u.l"), "wb") as f:
+    # file names as they must appear (escaped) in #line directives and (unescaped) in __FILE__
+    in_name, out_name = [("u.l", "u.c"), ("u.l", "u.c"), ('my"scan.l', 'o"ut.c'), ("a\\b c.l", "x y.c"), ("sub/u.l", "sub/v.c"), ("./u.l", "u.c"),
+                         ("it's.l", "it's.c")][idx % 7]
+    os.makedirs(os.path.join(wd, "sub"), exist_ok=True)
+    with open(os.path.join(wd, in_name), "wb") as f:
         f.write(text.encode("latin-1", errors="replace"))
     problems = []
-    rc, out, err = run([_FLEX] + flex_opts + ["-o", "u.c", "u.l"], cwd=wd, timeout=60)
+    rc, out, err = run([_FLEX] + flex_opts + ["-o", out_name, in_name], cwd=wd, timeout=60)
     if rc != 0:
         shutil.rmtree(wd, ignore_errors=True)
         known = None
@@ -290,15 +294,16 @@ def one(job):
                 known = "yyreject-text-in-code-block-string"
         return {'idx': idx, 'spec': text, 'opts': flex_opts, 'backend': backend, 'known': known,
                 'problems': ["flex refuses a specification whose user code is valid C: " + err.decode(errors='replace')[:300]], 'regions': 0}
-    with open(os.path.join(wd, "u.c"), "rb") as f:
+    with open(os.path.join(wd, out_name), "rb") as f:
         out_text = f.read().decode("latin-1")
     noline = noline_opt or "-L" in flex_opts
     if noline:
         if re.search(r"^#line ", out_text, re.M):
             problems.append("-L / %option noline given but the scanner contains #line directives")
     else:
-        problems += check_linedirs(out_text, "u.c", "u.l", text.split("\n"))[:3]
-    cc = ["gcc", "-std=gnu11", "-w", "-D_GNU_SOURCE", "-o", "u.exe", "u.c"]
+        esc = lambda n: n.replace("\\", "\\\\").replace('"', '\\"')
+        problems += check_linedirs(out_text, esc(out_name), esc(in_name), text.split("\n"))[:3]
+    cc = ["gcc", "-std=gnu11", "-w", "-D_GNU_SOURCE", "-o", "u.exe", out_name]
     rc, o2, e2 = run(cc, cwd=wd, timeout=120)
     if rc != 0:
         problems.append("the generated scanner does not compile although all user code is valid C: " + e2.decode(errors="replace")[:400])
@@ -307,14 +312,17 @@ def one(job):
         got = {}
         for line in o3.decode(errors="replace").splitlines():
             p = line.split(" ")
-            if len(p) == 3:
-                got[int(p[0])] = (int(p[1]), bytes.fromhex(p[2]))
+            if len(p) == 4 and p[3].startswith("f"):
+                got[int(p[0])] = (int(p[1]), bytes.fromhex(p[2]), bytes.fromhex(p[3][1:]))
         out_lines = out_text.split("\n")
         for kk, (p, lno, kind) in sorted(exp.items()):
             if kk not in got:
                 problems.append("region %s (input line %d): the statement was not executed / not found" % (kind, lno))
                 continue
-            gl, gp = got[kk]
+            gl, gp, gf = got[kk]
+            if not noline and gf.decode("latin-1") != in_name:
+                problems.append("region %s (input line %d): __FILE__ is %r, the input file is %r (wrong file name in a #line directive)" % (
+                    kind, lno, gf.decode("latin-1"), in_name))
             if gp != p:
                 problems.append("region %s (input line %d): the text reaching the compiler differs: wrote %r, compiled %r" % (kind, lno, p, gp))
             if noline:
